@@ -2,8 +2,10 @@
 C13 - particle models are dimensionally consistent with their declared units.
 
 Space: every `shape:*` model whose parameter table carries only length-type, SLD, angle or
-dimensionless units  x  parameter sets (defaults; each parameter moved to a seed-rotated non-default
-value; thorough: every pair)  x  1-D / 2-D (oriented models)  x  lambda in {2, 0.5, 1.3}  x
+dimensionless units  x  two bases (the defaults; the "activated" base in which every non-SLD, non-angle
+parameter with default 0 is non-zero and every count-like parameter with default 1 is raised, so that
+parameters the defaults switch off take part)  x  parameter sets on each base (the base; each parameter
+moved to two seed-rotated non-default values; thorough: every pair)  x  1-D / 2-D (oriented models)  x  lambda in {2, 0.5, 1.3}  x
 mu in {1.7, 0.5}  x  3 q points  (+ every effective-radius mode through call_Fq).
 
 Oracle (no model code involved, just the stated scaling law):
@@ -50,9 +52,9 @@ LAMBDAS = [2.0, 0.5, 1.3]
 MUS = [1.7, 0.5]
 BOUNDS = {
     "quick": {"D": 1, "lambda": LAMBDAS, "mu": MUS, "q1d": [0.011, 0.07, 0.31], "dims": "1d + 2d (oriented models)",
-              "factors_per_parameter": 2, "exponent_search": "{-2..3}^k (k<=5) or <=2 rows off the declaration"},
+              "factors_per_parameter": 2, "bases": "defaults + activated (zero defaults on, counts raised)", "exponent_search": "{-2..3}^k (k<=5) or <=2 rows off the declaration"},
     "thorough": {"D": 2, "lambda": LAMBDAS, "mu": MUS, "q1d": [0.011, 0.07, 0.31], "dims": "1d + 2d (oriented models)",
-                 "factors_per_parameter": 2, "exponent_search": "{-2..3}^k (k<=5) or <=2 rows off the declaration"},
+                 "factors_per_parameter": 2, "bases": "defaults + activated (zero defaults on, counts raised)", "exponent_search": "{-2..3}^k (k<=5) or <=2 rows off the declaration"},
 }
 CASE_TIMEOUT = 600
 
@@ -161,6 +163,43 @@ def moved(ctx, info, name, which=0):
     return None
 
 
+def _count_like(u, ctl, p):
+    """a dimensionless count whose default of 1 switches its companions off (n_stacking, n_shells, n ...)"""
+    return (u != SLD_UNIT and UNIT_EXP.get(u, 1) == 0 and u not in ("degrees", "degree") and not p.choices
+            and float(p.default) == 1.0 and (ctl or p.limits[0] >= 1.0))
+
+
+def activation(ctx, info):
+    """
+    {call name: value} turning on what the defaults leave off: every non-SLD, non-angle parameter whose default
+    is 0 gets a seed-rotated non-zero value inside its limits, every count-like parameter with default 1 is raised
+    (controls to 3, others to a seed-rotated non-integer >= 2).  ctx=None gives the fixed representatives used by
+    the exponent search.
+    """
+    out = {}
+    k = 0
+    for rid, u, names, ctl, p in rows(info):
+        if u == SLD_UNIT or u in ("degrees", "degree") or p.choices:
+            continue
+        lo, hi = p.limits
+        d = float(p.default)
+        if d == 0.0:
+            k += 1
+            cands = [0.2] if ctx is None else [0.3 * (ctx.factor(k + j) + 0.5) for j in range(8)]
+            for v in cands + [0.2]:
+                if lo <= v <= hi:
+                    for n in names:
+                        out[n] = v
+                    break
+        elif _count_like(u, ctl, p):
+            k += 1
+            v = 3.0 if ctl else (2.3 if ctx is None else ctx.rot([2.3, 3.0, 2.6, 3.4], k))
+            if lo <= v <= hi:
+                for n in names:
+                    out[n] = v
+    return out
+
+
 def _q(dim, lam=1.0):
     if dim == "2d":
         q = np.array(Q2, float) / lam
@@ -182,6 +221,7 @@ def cases(ctx):
         info = build.info(m)
         dims = ["1d"] + (["2d"] if info.parameters.orientation_parameters else [])
         names = [n for n, _ in variables(info)]
+        act = activation(ctx, info)
         for dim in dims:
             out.append({"model": m, "dim": dim, "vary": []})
             for n in names:
@@ -189,6 +229,14 @@ def cases(ctx):
             if not ctx.quick:
                 for a, b in itertools.combinations(names, 2):
                     out.append({"model": m, "dim": dim, "vary": [a, b]})
+            if act:
+                # second base: zero defaults switched on, counts raised; single moves on top of it in BOTH tiers
+                out.append({"model": m, "dim": dim, "vary": [], "base": "activated"})
+                for n in names:
+                    out.append({"model": m, "dim": dim, "vary": [n], "base": "activated"})
+                if not ctx.quick:
+                    for a, b in itertools.combinations(names, 2):
+                        out.append({"model": m, "dim": dim, "vary": [a, b], "base": "activated"})
     return out
 
 
@@ -252,13 +300,20 @@ def run_case(case, ctx):
     ev = Ev(m, dim)
     decl = declared(info)
     nfac = 2
+    activated = case.get("base") == "activated"
+    act = activation(ctx, info) if activated else {}
+
+    def base_set():
+        pars = defaults(info)
+        pars.update(act)
+        return pars
     # parameter sets of this case
     sets = []
     if not case["vary"]:
-        sets.append(defaults(info))
+        sets.append(base_set())
     else:
         for combo in itertools.product(range(nfac), repeat=len(case["vary"])):
-            pars = defaults(info)
+            pars = base_set()
             ok = True
             for n, which in zip(case["vary"], combo):
                 v = moved(ctx, info, n, which)
@@ -296,6 +351,18 @@ def run_case(case, ctx):
                 s = bool(np.any(np.abs(Ib - I0) > 1e-6 * np.abs(I0 - bg)))
             sens[rid] = s
             r.branch(("sens:" if s else "insens:") + case["model"] + "." + rid)
+        if activated:
+            r.branch("activated-base")
+            by_name = {n: (rid, ctl) for rid, u, names, ctl, p in rows(info) for n in names}
+            for rid in sorted(set(by_name[n][0] for n in act)):
+                bumped = dict(pars)
+                for n in act:
+                    if by_name[n][0] == rid:
+                        bumped[n] = pars[n] * 1.3 + (1.0 if pars[n] >= 2 else 0.0)
+                Ib = ev.I(bumped)
+                with np.errstate(all="ignore"):
+                    s = bool(np.any(np.abs(Ib - I0) > 1e-6 * np.abs(I0 - bg)))
+                r.branch(("asens:" if s else "ainsens:") + case["model"] + "." + rid)
         nt_lam = any(sens.values())
         nt_mu = bool(np.any(np.abs(I0 - bg) > 0))
         for lam in LAMBDAS:
@@ -471,6 +538,13 @@ def _search_sets(info, free):
         for n in by_id[rid][0]:
             alt[n] = base[n] * (0.71, 1.37)[k % 2]
         psets.append(alt)
+    # a set with the count-like parameters raised (their companions, e.g. a spacing disorder, only act for n >= 2)
+    raised = dict(base)
+    for n, v in activation(None, info).items():
+        if v >= 2.0:
+            raised[n] = v
+    if raised != base:
+        psets.append(raised)
     return psets
 
 
@@ -631,6 +705,15 @@ def finish(ctx, report):
     for k in [k for k in report.branches if k.startswith("sens:") or k.startswith("insens:")]:
         del report.branches[k]
     never = sorted(insens - sens)
+    asens = set(k[6:] for k in report.branches if k.startswith("asens:"))
+    ainsens = set(k[8:] for k in report.branches if k.startswith("ainsens:"))
+    for k in [k for k in report.branches if k.startswith("asens:") or k.startswith("ainsens:")]:
+        del report.branches[k]
+    report.branches["activated-parameters-influencing-I"] = len(asens)
+    report.coverage["activated_parameters_influencing_I"] = sorted(asens)
+    report.coverage["activated_parameters_never_influencing_I"] = sorted(ainsens - asens)
+    report.require("activated-base", 50, "parameter sets on the activated base (zero defaults on, counts raised)")
+    report.require("activated-parameters-influencing-I", 4, "activated parameters that influence I")
     report.branches["rescaled-parameters-exercised"] = len(sens)
     report.branches["rescaled-parameters-never-influencing-I"] = len(never)
     report.coverage["models"] = models()
